@@ -17,8 +17,14 @@ EGRESS = dict(sub="egress", mode="egress", family="egress", shards=q(4, 16),
               key_fields=["k", "raw", "s", "host"])
 
 
+DRUN = dict(sub="drun", mode="dispatch", family="drun", shards=q(4, 16),
+            args=lambda tier, sd, sh: ["-seed", sd * 1000 + sh, "-runs", 10 if tier == "quick" else 60],
+            key_fields=["k", "run", "backend", "concurrency"])
+
+
 def c06(prop, tier, res, replay=None):
-    return pure.check_cases(prop, tier, res, [DISPATCH, EGRESS], [
+    return pure.check_cases(prop, tier, res, [DISPATCH, EGRESS, DRUN], [
+        "the dispatcher as it runs: configuration text -> compiler -> run()'s dispatch route table -> the real PushDispatcher (worker goroutines, micro-batches, batched lease mutations with per-action fallback) on real memory and SQLite stores in real time (retry base 1 ms), scripted deliverer per (message, target); after quiescence every pair is judged (sends <= max+1, attempt log numbers the sends, documented outcome) and compared with the Lean delivery cycle under the retry budget the configuration text gives that target",
         "float64 arithmetic of retryDelay is not modelled: Go's result is compared with the exact rational model within a relative slack of 2^-48·X + 2 ns, and the property bound is evaluated on Go's own output in exact arithmetic",
         "the attempt bound assumes lease mutations on the store succeed (as the property states); goroutine scheduling of the dispatcher is not modelled"], replay)
 
